@@ -124,8 +124,7 @@ class Engine:
         seams.PROXY_FILES["on"] = True   # file reads go through the seam
         try:
             rawp = os.path.join(tmp, "a.raw")
-            with open(rawp, "wb") as f:
-                f.write(data)
+            C.write_file(rawp, data)
             wavp = os.path.join(tmp, "a.wav")
             C.write_wav(wavp, data, sr, sw, ch,
                         trailer=bool(sc.get("wav_trailer")))
@@ -152,7 +151,9 @@ class Engine:
             def call(fn):
                 try:
                     return "ok", fn()
-                except BaseException as e:  # noqa: B902
+                except Exception as e:
+                    if _harness_exc(e):
+                        raise
                     return "exc", e
 
             for i, op in enumerate(sc["ops"]):
@@ -167,7 +168,27 @@ class Engine:
                         # unspecified start after a seek on a closed source:
                         # adopt what the source reports
                         m["cur"] = s.position
+                    if name == "open" and m["open"]:
+                        continue   # open() on an open source: unspecified
                     if name == "open":
+                        if m["ever_closed"] and kind == "stdin":
+                            # a reopened stdin source is not judged (the
+                            # statement is silent, read-ahead makes it
+                            # fuzzy) - but closing one source must not make
+                            # standard input unreadable for a NEW source
+                            try:
+                                s2 = StdinAudioSource(sr, sw, ch)
+                                s2.open()
+                                r2 = call(lambda: s2.read(1))
+                            except Exception as e2:
+                                r2 = ("exc", e2)
+                            if r2[0] == "exc":
+                                return V("C11.1", "after a standard-input "
+                                         "source was closed, a new one cannot "
+                                         "read: %r" % (r2[1],),
+                                         "C11.1:stdin_unusable_after_close")
+                            m["live"] = False
+                            continue
                         if m["ever_closed"] and kind in ("raw", "wav"):
                             m["live"] = False  # reopening a file: not judged
                             continue
@@ -230,6 +251,11 @@ class Engine:
                             want = None
                             fl["past_end"] += 1 if rem == 0 else 0
                         got = r[1]
+                        if n == 0 and rem > 0 and isinstance(
+                                got, (bytes, bytearray)) and len(got) == 0:
+                            # zero samples requested while audio remains:
+                            # an empty chunk is min(0, remaining) samples
+                            continue
                         if got != want:
                             if isinstance(got, (bytes, bytearray)) \
                                     and len(got) == 0:
@@ -274,7 +300,7 @@ class Engine:
                                      "samples were consumed" % (p, m["cur"]),
                                      "C11.3:position_getter")
                         ps = s.position_s
-                        if abs(ps - m["cur"] / sr) > 1e-9:
+                        if abs(float(ps) - m["cur"] / sr) >= 1.0 / sr:
                             return V("C11.3", "position_s reads %r at sample "
                                      "%d (rate %d)" % (ps, m["cur"], sr),
                                      "C11.3:position_s_getter")
@@ -314,7 +340,16 @@ class Engine:
                                          "(length %d): %s instead of "
                                          "IndexError" % (p, L, _short(r[1])),
                                          "C11.3:position_range")
-                        if s.position != m["cur"]:
+                        if not (0 <= tgt <= L):
+                            # rejected: where the cursor is afterwards is
+                            # not fixed, but it must be a position
+                            if not (0 <= s.position <= L):
+                                return V("C11.3", "after the rejected "
+                                         "position = %d the cursor reads %r "
+                                         "(length %d)" % (p, s.position, L),
+                                         "C11.3:position_after_reject")
+                            m["cur"] = s.position
+                        elif s.position != m["cur"]:
                             return V("C11.3", "after position = %d (length "
                                      "%d) position reads %r, expected %d" % (
                                          p, L, s.position, m["cur"]),
@@ -363,10 +398,13 @@ class Engine:
                                          "%d) raised IndexError although in "
                                          "range" % (attr, val, tgt, L),
                                          "C11.3:seek_in_range_raises")
-                            if s.position != before:
-                                return V("C11.3", "failed %s assignment "
-                                         "moved the cursor" % attr,
-                                         "C11.3:seek_fail_moves")
+                            if not (0 <= s.position <= L):
+                                return V("C11.3", "after the rejected %s "
+                                         "assignment the cursor reads %r "
+                                         "(length %d)" % (attr, s.position,
+                                                          L),
+                                         "C11.3:position_after_reject")
+                            m["cur"] = s.position
                             continue
                         # accepted: must be within one sample of the instant
                         if tgtq <= -1 or tgtq >= L + 1:
@@ -422,6 +460,20 @@ class Engine:
             sys.stdin = old_stdin
             seams.PROXY_FILES["on"] = False
             C.rm_scratch(tmp)
+
+
+def _harness_exc(e):
+    """An AttributeError / TypeError / NotImplementedError raised from inside
+    the simulated stdin objects is a gap of the harness, not a verdict."""
+    if not isinstance(e, (AttributeError, NotImplementedError)):
+        return False
+    tb = e.__traceback__
+    last = None
+    while tb is not None:
+        last = tb
+        tb = tb.tb_next
+    fn = last.tb_frame.f_code.co_filename if last is not None else ""
+    return "/simkit/" in fn or "SimPipe" in str(e) or "FakeStdin" in str(e)
 
 
 def _short(b):
